@@ -51,3 +51,23 @@ package classdef
 //@ func (info Table) AppendLen() (n int)   props: C08 C16
 //@   ensures 4 <= n && n <= 4 + 6*65536
 //@   modifies nothing
+
+// Read: total on arbitrary bytes (no panic, every loop terminates, allocation
+// bounded by the 16-bit glyph count), reader faults are returned, and no glyph
+// is assigned class 0 explicitly (class 0 is the absence of an entry).
+//@ func Read(p *parser.Parser, pos int64) (table Table, err error)   props: C08 C02 C18
+//@   requires parser.inv(p) && pos >= 0
+//@   ensures err == nil ==> table != nil && forall g uint16 :: has(table, g) ==> table[g] != 0
+//@   ensures faults(p.r) > old(faults(p.r)) ==> err != nil
+//@   loop 0
+//@     invariant parser.inv(p) && 0 <= i && i <= glyphCount && glyphCount <= 65535 && startGlyphID + glyphCount <= 65536 && res != nil && fresh(res) && faults(p.r) == old(faults(p.r))
+//@     invariant forall g uint16 :: has(res, g) ==> res[g] != 0
+//@     decreases glyphCount - i
+//@   loop 1
+//@     invariant parser.inv(p) && 0 <= i && i <= classRangeCount && res != nil && fresh(res) && faults(p.r) == old(faults(p.r))
+//@     invariant forall g uint16 :: has(res, g) ==> res[g] != 0
+//@     decreases classRangeCount - i
+//@   loop 2
+//@     invariant startGlyphID <= j && j <= max(endGlyphID + 1, startGlyphID) && endGlyphID <= 65535 && res != nil && fresh(res) && classValue != 0 && 0 <= i && i < classRangeCount
+//@     invariant forall g uint16 :: has(res, g) ==> res[g] != 0
+//@     decreases endGlyphID + 1 - j
